@@ -26,6 +26,9 @@ use std::panic::{self, AssertUnwindSafe};
 /// is reported as `TIMEOUT` and the process exits with status 3 (the caller resumes after that
 /// request). A spinning thread cannot be cancelled, hence the exit.
 static CASE_START_MS: std::sync::atomic::AtomicU64 = std::sync::atomic::AtomicU64::new(0);
+/// limit of the running request when its line begins with the token `limit=<seconds>` (0 = the default); used for requests
+/// that are known not to return (finding F23), so that a run does not spend the default limit on each of them
+static CASE_LIMIT_MS: std::sync::atomic::AtomicU64 = std::sync::atomic::AtomicU64::new(0);
 
 fn now_ms() -> u64 {
     use std::time::{SystemTime, UNIX_EPOCH};
@@ -48,6 +51,8 @@ fn main() {
         std::thread::spawn(move || loop {
             std::thread::sleep(std::time::Duration::from_millis(200));
             let start = CASE_START_MS.load(Ordering::SeqCst);
+            let own = CASE_LIMIT_MS.load(Ordering::SeqCst);
+            let limit_ms = if own != 0 { own } else { limit_ms };
             if start != 0 && now_ms().saturating_sub(start) > limit_ms {
                 if let Ok(mut o) = out.lock() {
                     let _ = writeln!(o, "TIMEOUT request ran longer than {} s", limit_ms / 1000);
@@ -60,7 +65,12 @@ fn main() {
 
     for line in stdin.lock().lines() {
         let line = line.expect("stdin");
-        let toks: Vec<&str> = line.split_ascii_whitespace().collect();
+        let mut toks: Vec<&str> = line.split_ascii_whitespace().collect();
+        let own = toks.first().and_then(|t| t.strip_prefix("limit=")).and_then(|t| t.parse::<u64>().ok());
+        if own.is_some() {
+            toks.remove(0);
+        }
+        CASE_LIMIT_MS.store(own.unwrap_or(0) * 1000, Ordering::SeqCst);
         CASE_START_MS.store(now_ms(), Ordering::SeqCst);
         let res = panic::catch_unwind(AssertUnwindSafe(|| match mode {
             "impl" => dispatch_impl(&toks),
